@@ -317,7 +317,7 @@ def o134(ctx):
     # freshness: cryomap.read returns a copy on every path; in-place folds act on fresh arrays only
     mr, fr_ = ctx.prog.func("cryomap.read")
     ctx.touched("cryomap.read")
-    for label, arg, assume in (("array input", Unk(sym("input_array")), {"isinstance(input_map, str)": False, "isinstance(input_map, np.ndarray)": True}),
+    for label, arg, assume in (("array input", typed(Unk(sym("input_array")), "ndarray"), {"isinstance(input_map, str)": False, "isinstance(input_map, np.ndarray)": True}),
                                ("file input", K("x.mrc"), {})):
         it = Interp(ctx.prog, assume=assume_map(assume))
         r = it.run("cryomap.read", [arg], {})
@@ -329,7 +329,7 @@ def o134(ctx):
         q = CM + name
         m, fn = ctx.prog.func(q)
         it = Interp(ctx.prog, summaries=dict(MASK_SUMMARIES), no_inline=())
-        masks = [Unk(sym(f"in{i}")) for i in range(2)]
+        masks = [typed(Unk(sym(f"in{i}")), "ndarray") for i in range(2)]
         it2 = Interp(ctx.prog, summaries=MASK_SUMMARIES, assume=assume_map({"isinstance(input_map, str)": False,
                                                                             "isinstance(input_map, np.ndarray)": True}))
         it2.run(q, [Seq(masks, "list")], {})
